@@ -35,7 +35,7 @@ type FieldOp struct {
 // an existing document becomes an update and vice versa, operations on a deleted document are skipped.
 type Op struct {
 	Node   int       `json:"node"`
-	Kind   string    `json:"kind"` // create update delete
+	Kind   string    `json:"kind"` // create update delete fork (fork: concurrent update on the other author, merged back, then a two-head commit)
 	Doc    int       `json:"doc"`
 	Fields []FieldOp `json:"fields"`
 	Req    *Ident    `json:"req"`  // request identity (with private key) or nil
@@ -45,7 +45,7 @@ type Op struct {
 // Tamper selects one signed block below (or equal to) the pushed one and one mutation.
 type Tamper struct {
 	Target int   `json:"target"` // index modulo the signed blocks of the pushed block's closure, breadth-first
-	Kind   int   `json:"kind"`   // index modulo the mutations applicable to that block
+	Kind   int   `json:"kind"`   // selects (after mixing) one of the mutations applicable to that block
 	Arg    int   `json:"arg"`    // position / replacement selector
 	Resign Ident `json:"resign"` // key that validly re-signs the blocks above the tampered one
 }
@@ -127,7 +127,7 @@ func drawCase(t *rapid.T) Case {
 	for i := 0; i < nOps; i++ {
 		o := Op{
 			Node: rapid.IntRange(0, nAuthors-1).Draw(t, "node"),
-			Kind: rapid.SampledFrom([]string{"update", "update", "update", "update", "update", "create", "create", "delete"}).Draw(t, "kind"),
+			Kind: rapid.SampledFrom([]string{"update", "update", "update", "update", "update", "update", "create", "create", "fork", "fork", "fork", "delete"}).Draw(t, "kind"),
 			Doc:  rapid.SampledFrom([]int{0, 0, 0, 1}).Draw(t, "doc"),
 			Sync: rapid.IntRange(0, 9).Draw(t, "sync") < 6,
 		}
@@ -166,7 +166,7 @@ func drawCase(t *rapid.T) Case {
 	p.Tamper = Tamper{
 		// small targets are near the pushed block; bias to both the pushed block and deep ones
 		Target: rapid.SampledFrom([]int{0, 0, 0, 1, 1, 2, 3, 4, 5, 6, 7, 9, 11, 14, 17}).Draw(t, "target"),
-		Kind:   rapid.IntRange(0, 63).Draw(t, "tamper_kind"),
+		Kind:   rapid.IntRange(0, 1023).Draw(t, "tamper_kind"),
 		Arg:    rapid.IntRange(0, 255).Draw(t, "tamper_arg"),
 		Resign: genIdent().Draw(t, "resign"),
 	}
